@@ -42,7 +42,7 @@ RULE = (
     "in code-word order and mapped to wire positions; for confirmed last blocks additionally every 32-bit message CRC "
     "of weight 1..2 with the pattern that zeroes it.  HRNP patterns that shorten the length field are outside the "
     "guaranteed set and counted under excluded_by_construction.  A case is (PDU fields, flipped wire positions); distinct "
-    "by construction; non-trivial = the corruption was detected (indicator False or decode error) or is a known finding, "
+    "by construction; non-trivial = the corruption was detected (indicator False or decode error), "
     "as opposed to falling into bits the PDU does not interpret (parsed fields identical)."
 )
 ASSUMPTIONS = [
@@ -450,16 +450,6 @@ def oracle_fault(case):
         "decode error, indicator False, or all interpreted fields equal to the uncorrupted PDU",
         klass=pdu["kind"],
     )
-
-
-def pred_check_field_all_zero(case, fail):
-    """Known-finding predicate: after the corruption the received check field is all-zero (the in-band 'please
-    generate' sentinel of data header, short LC and CRC-9 blocks)."""
-    pdu = case["pdu"]
-    if pdu["kind"] not in CRC_KINDS or pdu["kind"] == "pi_header":
-        return False
-    rx = corrupted_wire(case)
-    return not any(rx[p] for p in check_field_positions(pdu, len(rx)))
 
 
 # ------------------------------------------------------------------------------------------------ pattern generators
@@ -1172,7 +1162,4 @@ SUBCHECKS = [
     SubCheck("fault_hrnp", oracle_fault, make_fault_driver("fault_hrnp"), "(c) HRNP datagrams x all single-bit errors and bursts <= 15 bits"),
 ]
 
-PREDICATES = {
-    "word": lambda case, fail: case["word"],
-    "check_field_all_zero_after_corruption": pred_check_field_all_zero,
-}
+PREDICATES = {}
